@@ -1,10 +1,10 @@
 """Input generators shared by the suites. All randomness comes from the Random object passed in."""
 
-ATOMS = ["x", "y", "z", "a", "b", "2", "3", "7", "12", "0", "3.5", "0.5", ".5", "7.", "10", "4x", "2x^2", "xy", "xyz^2",
+ATOMS = ["x", "y", "z", "a", "b", "2", "3", "7", "12", "0", "3.5", "0.5", ".5", "7.", "10", "4x", "2x^2", "xy", "xyz^2", "Sgn(x)", "SGN(2)", "sGn(y)", "sgN", "X", "Sx",
          "-x", "-3", "5!", "3!", "sgn(x)", "(x)", "0.5y^3", "12x^3", "x^2", "y^3", "2y", "-2x", "1", "11.8", "0.25"]
 BINOPS = ["+", "-", "*", "/", "^", "="]
 ALPHA = list("0123456789.xyzabsgn+-*/^!=()[] \t") + ["–"]
-SOUP = ALPHA + ["sgn(", "sgn", "12", "3.5", "x^", "(", ")", "*", "+", "^", "!", "="]
+SOUP = ALPHA + ["sgn(", "sgn", "12", "3.5", "x^", "(", ")", "*", "+", "^", "!", "=", "Sgn(", "SGN", "sgnx", "S", "G", "N"]
 WEIRD = list("#$%&_{}|~@,;:?<>\"'\\`") + ["é", "π", "×", "÷", "−", "—", " ", " ", "٣", "１", "ａ", "Ω", "​", "\x00", "\x0b", "\x0c", "E", "e"]
 
 
@@ -63,6 +63,20 @@ def strings(rnd, n):
             out.append(soup(rnd))
         else:
             out.append(weird(rnd))
+    return out
+
+
+def space_variants(rnd, s):
+    """texts that differ from s only by blanks: inserted inside digit runs / letter runs, or removed"""
+    out = []
+    if len(s) >= 2:
+        i = rnd.randrange(1, len(s))
+        out.append(s[:i] + " " + s[i:])
+        j = rnd.randrange(1, len(s))
+        out.append(s[:j] + "  " + s[j:])
+    if " " in s:
+        out.append(s.replace(" ", "", 1))
+        out.append(s.replace(" ", ""))
     return out
 
 
